@@ -40,6 +40,15 @@
 //!    outbound-queue-full" / ":unread-pipelined-burst"); then the normal release / recovery phases run.
 //! A quarter of the random cases also run with a tiny outbound capacity (client reading normally).
 //!
+//! A third family runs before everything else (`--stage hammer` runs it alone, `c16_hammer.rs`):
+//!  * hammer — caps 1, 2, 4, 8 × server runtime flavour (multi-thread / current-thread), eight groups at once,
+//!    one connection each: tens of thousands of SHORT off-reader requests (no gate: return / error / panic at
+//!    once) kept in flight by several concurrent callers or deep pipelining, so that handler exits overlap the
+//!    reader's admissions; every request gets exactly one reply (its own result or ec 8; the saturation hook
+//!    records whether `cap` handlers were running at the rejection); at every idle point (all replies in,
+//!    gauge 0) a probe parks exactly `cap` handlers — all admitted, one more rejected, all answer after release.
+//!    "C16:capacity-lost-after-hammer:<cap>:<admitted>" / "C16:capacity-exceeded-after-hammer:<cap>:<cap+1>".
+//!
 //! Anything that depends on the machine making progress (15 s windows) is inconclusive when the
 //! heartbeat saw a stall.
 
@@ -55,6 +64,9 @@ use std::sync::{Arc, Mutex};
 use std::time::{Duration, Instant};
 use tokio::sync::mpsc::{UnboundedReceiver, UnboundedSender, unbounded_channel};
 use tokio_tungstenite::tungstenite::Message as WsMsg;
+
+#[path = "c16_hammer.rs"]
+mod hammer;
 
 type Ws = tokio_tungstenite::WebSocketStream<tokio::net::TcpStream>;
 
@@ -465,6 +477,16 @@ struct Shared {
     hook_saturation: AtomicU64,
     hook_panic: AtomicU64,
     hook_other: AtomicU64,
+    /// hammer family only (one connection per server): connection id and cap the saturation hook judges
+    /// against, the phase the driver is in (0 = hammer, 1 = probe), and what the hook saw: the RAII gauge
+    /// of running handlers read ON THE READER at the moment it rejected a message
+    hammer_conn: AtomicU64,
+    hammer_cap: AtomicU64,
+    hammer_phase: AtomicU64,
+    hammer_rej_at_cap: AtomicU64,
+    hammer_rej_below_cap: AtomicU64,
+    probe_rej_at_cap: AtomicU64,
+    probe_rej_below_cap: AtomicU64,
 }
 
 impl Shared {
@@ -480,6 +502,13 @@ impl Shared {
             hook_saturation: AtomicU64::new(0),
             hook_panic: AtomicU64::new(0),
             hook_other: AtomicU64::new(0),
+            hammer_conn: AtomicU64::new(0),
+            hammer_cap: AtomicU64::new(0),
+            hammer_phase: AtomicU64::new(0),
+            hammer_rej_at_cap: AtomicU64::new(0),
+            hammer_rej_below_cap: AtomicU64::new(0),
+            probe_rej_at_cap: AtomicU64::new(0),
+            probe_rej_below_cap: AtomicU64::new(0),
         })
     }
     fn emit(&self, conn: u64, ev: Ev) {
@@ -663,6 +692,21 @@ struct Stats {
     pushed_bytes: u64,
     pushed_received: u64,
     pushed_full_results: u64,
+    hammer_rounds: u64,
+    hammer_rounds_cut_by_time: u64,
+    hammer_requests: u64,
+    hammer_replies_return: u64,
+    hammer_replies_error: u64,
+    hammer_replies_panic: u64,
+    hammer_replies_ec8: u64,
+    hammer_max_in_flight: u64,
+    hammer_ms: u64,
+    hammer_idle_points: u64,
+    probe_rounds_completed: u64,
+    probe_admitted: u64,
+    probe_rejections_retried: u64,
+    probe_extra_rejected: u64,
+    probe_released_replies: u64,
 }
 impl Stats {
     fn add(&mut self, o: &Stats, capped: bool) {
@@ -674,9 +718,13 @@ impl Stats {
             saturations_with_notify_slots, refills_after_notify_exit, probes_rejected_after_notify_refill, flood_scripts,
             flood_tail_requests, flood_tail_rejected_ec8, flood_tail_pings_answered, flood_saturations_seen_before_first_read,
             flood_tails_fully_processed_before_first_read, flood_reader_stalled_on_full_queue, push_fills_reached_full,
-            push_fills_gave_up, pushed_sent, pushed_bytes, pushed_received, pushed_full_results
+            push_fills_gave_up, pushed_sent, pushed_bytes, pushed_received, pushed_full_results, hammer_rounds,
+            hammer_rounds_cut_by_time, hammer_requests, hammer_replies_return, hammer_replies_error, hammer_replies_panic,
+            hammer_replies_ec8, hammer_ms, hammer_idle_points, probe_rounds_completed, probe_admitted, probe_rejections_retried,
+            probe_extra_rejected, probe_released_replies
         );
         self.max_retries = self.max_retries.max(o.max_retries);
+        self.hammer_max_in_flight = self.hammer_max_in_flight.max(o.hammer_max_in_flight);
         if capped {
             self.gauge_max = self.gauge_max.max(o.gauge_max);
         }
@@ -720,6 +768,35 @@ fn req_frame(id: u64, notify: bool, path: &str, body: &Value) -> Vec<u8> {
 }
 
 impl Drv {
+    fn new(ws: Ws, ev_rx: UnboundedReceiver<Ev>, sh: Arc<Shared>, hb: Arc<Heartbeat>, conn: u64, cap: usize, tag: &str) -> Drv {
+        Drv {
+            ws,
+            ev_rx,
+            sh,
+            hb,
+            conn,
+            cap,
+            tag: tag.to_string(),
+            pushed: HashSet::new(),
+            next_id: 0,
+            next_tok: 0,
+            pending: HashMap::new(),
+            gates: HashMap::new(),
+            started: HashSet::new(),
+            exited: HashSet::new(),
+            forbidden: HashMap::new(),
+            notify_ids: HashSet::new(),
+            got8: HashSet::new(),
+            saturated_now: false,
+            diagnosing: false,
+            exit_kinds: HashSet::new(),
+            closed: None,
+            viols: vec![],
+            inconcl: vec![],
+            st: Stats::default(),
+            order: vec![],
+        }
+    }
     fn viol(&mut self, sig: impl Into<String>, detail: impl Into<String>) {
         self.viols.push((sig.into(), detail.into()));
     }
@@ -820,7 +897,9 @@ impl Drv {
             Ev::Started { tok, running } => {
                 self.st.started_events += 1;
                 self.order.push((1, tok % 1_000_000));
-                self.started.insert(tok);
+                if !self.started.insert(tok) {
+                    self.viol("C16:handler-ran-twice", format!("the off-reader handler for token {tok} (one message) started a second time; cap {}", self.cap));
+                }
                 self.st.gauge_max = self.st.gauge_max.max(running);
                 if self.cap > 0 && running > self.cap as u64 {
                     self.viol("C16:gauge-over-cap", format!("handler for token {tok} observed {running} running off-reader handlers on its connection, cap {}", self.cap));
@@ -894,6 +973,10 @@ impl Drv {
             Exp::Call { tok, out, released, may_reject } => {
                 if h.ec == 8 {
                     self.st.rejects_seen += 1;
+                    if self.started.contains(&tok) {
+                        self.viol("C16:rejected-request-ran-handler", format!("request id {} token {tok} was answered with ec 8 although its handler ran; cap {}", h.id, self.cap));
+                        return;
+                    }
                     if may_reject {
                         self.got8.insert(h.id);
                         self.forbidden.insert(tok, false);
@@ -1176,8 +1259,13 @@ impl Drv {
 
     /// Send one parked request and retry on ec 8 until its handler has started.
     async fn admit_with_retries(&mut self, out: Out, phase: &str) -> Option<(u64, u64)> {
-        let overall = Instant::now() + Duration::from_secs(12);
-        for attempt in 0..400u64 {
+        self.admit_with_retries_within(out, phase, Duration::from_secs(12), 400).await
+    }
+
+    /// `admit_with_retries` with an explicit window and attempt bound.
+    async fn admit_with_retries_within(&mut self, out: Out, phase: &str, window: Duration, attempts: u64) -> Option<(u64, u64)> {
+        let overall = Instant::now() + window;
+        for attempt in 0..attempts {
             let id = self.new_id();
             let tok = self.new_tok();
             self.add_gate(tok);
@@ -1530,6 +1618,9 @@ struct CaseResult {
     hook_other: u64,
     gate_timeouts: u64,
     late_forbidden_starts: u64,
+    /// hammer family: (rejections in the hammer phase with the gauge at the cap, ... below the cap,
+    /// rejections in the probe phase with the gauge at the cap, ... below the cap)
+    hammer_hook: [u64; 4],
 }
 
 type RtPool = Arc<Mutex<Vec<tokio::runtime::Runtime>>>;
@@ -1537,7 +1628,7 @@ type RtPool = Arc<Mutex<Vec<tokio::runtime::Runtime>>>;
 async fn run_case(case: Case, hb: Arc<Heartbeat>, pool: RtPool) -> CaseResult {
     let sh = Shared::new();
     let router = build_router(&sh, case.route, case.mw);
-    let mut res = CaseResult { viols: vec![], inconcl: vec![], stats: vec![], orders: vec![], mw_calls: 0, ctx_peer_seen: 0, hook_saturation: 0, hook_panic: 0, hook_other: 0, gate_timeouts: 0, late_forbidden_starts: 0 };
+    let mut res = CaseResult { viols: vec![], inconcl: vec![], stats: vec![], orders: vec![], mw_calls: 0, ctx_peer_seen: 0, hook_saturation: 0, hook_panic: 0, hook_other: 0, gate_timeouts: 0, late_forbidden_starts: 0, hammer_hook: [0; 4] };
     let hs = sh.clone();
     let mut server = WebSocketServer::new(router).on_error(move |e| match e {
         ConnectionError::Saturation { .. } => {
@@ -1622,33 +1713,7 @@ async fn run_case(case: Case, hb: Arc<Heartbeat>, pool: RtPool) -> CaseResult {
                 Ok((ws, _)) => ws,
                 Err(e) => return (vec![], vec![format!("websocket handshake failed: {e}")], Stats::default(), 0, vec![]),
             };
-            let mut d = Drv {
-                ws,
-                ev_rx: rx,
-                sh: sh.clone(),
-                hb,
-                conn,
-                cap,
-                tag: tag.to_string(),
-                pushed: HashSet::new(),
-                next_id: 0,
-                next_tok: 0,
-                pending: HashMap::new(),
-                gates: HashMap::new(),
-                started: HashSet::new(),
-                exited: HashSet::new(),
-                forbidden: HashMap::new(),
-                notify_ids: HashSet::new(),
-                got8: HashSet::new(),
-                saturated_now: false,
-                diagnosing: false,
-                exit_kinds: HashSet::new(),
-                closed: None,
-                viols: vec![],
-                inconcl: vec![],
-                st: Stats::default(),
-                order: vec![],
-            };
+            let mut d = Drv::new(ws, rx, sh.clone(), hb, conn, cap, tag);
             d.run_script(&script).await;
             // let every handler go, whatever happened
             let toks: Vec<u64> = d.gates.keys().copied().collect();
@@ -1710,7 +1775,9 @@ pub fn run(args: &Args) -> Report {
          parked; after all exits cap new parked requests are admitted within bounded retries and one more is rejected; \
          slots held by parked NOTIFY handlers count and come back the same way; with a saturated cap and a full bounded \
          outbound queue (tiny with_outbound_capacity, unread pipelined flood, queue pre-filled with pushed notifies) every \
-         over-cap request and ping of the flood is still answered exactly once. \
+         over-cap request and ping of the flood is still answered exactly once; hammer family: after thousands of short \
+         off-reader requests whose exits overlap admissions on one connection (every one answered exactly once with its own \
+         result or ec 8) the idle connection admits exactly cap parked handlers again and rejects one more. \
          distinct = (cap, route kind, middleware, burst, release order, outbound capacity, fill mode) of an executed connection script",
     );
     let rt = match tokio::runtime::Builder::new_multi_thread().worker_threads(6).max_blocking_threads(2048).enable_all().build() {
@@ -1720,26 +1787,90 @@ pub fn run(args: &Args) -> Report {
             return rep;
         }
     };
+    let mut hammer_cases: Vec<hammer::HammerCase> = vec![];
     let cases: Vec<Case> = match &args.replay {
-        Some(p) => match std::fs::read_to_string(p).ok().and_then(|s| serde_json::from_str::<Value>(&s).ok()).and_then(|v| case_from_json(&v)) {
-            Some(c) => vec![c],
+        Some(p) => match std::fs::read_to_string(p).ok().and_then(|s| serde_json::from_str::<Value>(&s).ok()) {
+            Some(v) if v["family"].as_str() == Some("hammer") => match hammer::case_from_json(&v) {
+                Some(h) => {
+                    hammer_cases.push(h);
+                    vec![]
+                }
+                None => {
+                    rep.inconclusive(format!("cannot read hammer replay case {p}"));
+                    return rep;
+                }
+            },
+            Some(v) => match case_from_json(&v) {
+                Some(c) => vec![c],
+                None => {
+                    rep.inconclusive(format!("cannot read replay case {p}"));
+                    return rep;
+                }
+            },
             None => {
                 rep.inconclusive(format!("cannot read replay case {p}"));
                 return rep;
             }
         },
-        None => plan(args),
+        // `--stage hammer` runs the hammer family alone; `--stage notify-fill` / `--stage flood` run without it
+        None => match args.stage.as_str() {
+            "hammer" => {
+                hammer_cases = hammer::plan(args);
+                vec![]
+            }
+            "notify-fill" | "flood" => plan(args),
+            _ => {
+                hammer_cases = hammer::plan(args);
+                plan(args)
+            }
+        },
     };
+    let hammer_only = cases.is_empty() && !hammer_cases.is_empty();
     let planned = cases.len();
     let planned_exhaustive = cases.iter().filter(|c| c.exhaustive).count();
     let hb = Arc::new(Heartbeat::start());
     let budget = Duration::from_secs(if args.thorough() { 400 } else { 30 });
-    let started = Instant::now();
     quiet_panics(true);
     let width = if args.thorough() { 24 } else { 16 };
     let pool: RtPool = Arc::new(Mutex::new(vec![]));
     // stop launching new cases after this many failing ones (RV_C16_MAX_FAILING: sensitivity experiments only)
     let max_failing: usize = std::env::var("RV_C16_MAX_FAILING").ok().and_then(|v| v.parse().ok()).unwrap_or(8);
+    // (h) the hammer groups run first, all at once and with the machine otherwise quiet: what they need is
+    // real parallelism between one connection's reader and its blocking-pool threads
+    let hammer_planned = hammer_cases.len();
+    let hammer_started = Instant::now();
+    let hammer_results: Vec<(hammer::HammerCase, CaseResult)> = rt.block_on(async {
+        let mut set = tokio::task::JoinSet::new();
+        let mut it = hammer_cases.into_iter();
+        let mut out = vec![];
+        // bounded: a group is hammer budget + probes, every wait inside has its own window
+        let dl = tokio::time::Instant::now() + Duration::from_secs(if args.thorough() { 420 } else { 150 });
+        loop {
+            // eight groups (caps 1, 2, 4, 8 × two server runtime flavours) at a time
+            while set.len() < 8 {
+                match it.next() {
+                    Some(c) => {
+                        let hb = hb.clone();
+                        set.spawn(async move {
+                            let r = hammer::run_hammer_case(c.clone(), hb).await;
+                            (c, r)
+                        });
+                    }
+                    None => break,
+                }
+            }
+            match tokio::time::timeout_at(dl, set.join_next()).await {
+                Ok(Some(Ok(x))) => out.push(x),
+                Ok(Some(Err(_))) => {}
+                Ok(None) | Err(_) => break,
+            }
+        }
+        set.abort_all();
+        out
+    });
+    let hammer_wall = hammer_started.elapsed();
+    // the case budget below starts after the hammer phase
+    let started = Instant::now();
     let results: Vec<(Case, CaseResult)> = rt.block_on(async {
         let mut out = vec![];
         let mut set = tokio::task::JoinSet::new();
@@ -1825,6 +1956,86 @@ pub fn run(args: &Args) -> Report {
             rep.sample(json!({"case": case_json(case), "frames": r.stats.iter().map(|s| s.frames).sum::<u64>(), "gauge_max": r.stats.iter().map(|s| s.gauge_max).max()}));
         }
     }
+    // ---- hammer family
+    let mut hammer_hook = [0u64; 4];
+    let mut hammer_clean = 0u64;
+    let mut hammer_groups: Vec<String> = vec![];
+    for (case, r) in &hammer_results {
+        rep.eval();
+        rep.distinct(&("hammer", case.cap, case.current_thread, case.route, case.mw, &case.rounds));
+        caps_seen.insert(case.cap);
+        *families.entry("hammer").or_insert(0u64) += 1;
+        if r.viols.is_empty() && r.inconcl.is_empty() {
+            hammer_clean += 1;
+        }
+        for st in &r.stats {
+            tot.add(st, true);
+            hook_sat_expected += st.rejects_seen + st.overcap_notifies;
+            hammer_groups.push(format!(
+                "cap{}/{}: {} requests in {} ms, {} ec8, probes {}/{}",
+                case.cap,
+                hammer::flavour(case.current_thread),
+                st.hammer_requests,
+                st.hammer_ms,
+                st.hammer_replies_ec8,
+                st.probe_rounds_completed,
+                case.rounds.len()
+            ));
+        }
+        for o in &r.orders {
+            orders.insert(*o);
+        }
+        for (a, b) in hammer_hook.iter_mut().zip(r.hammer_hook.iter()) {
+            *a += *b;
+        }
+        mw_calls += r.mw_calls;
+        ctx_seen += r.ctx_peer_seen;
+        hook_sat += r.hook_saturation;
+        hook_panic += r.hook_panic;
+        hook_other += r.hook_other;
+        gate_to += r.gate_timeouts;
+        for (sig, d) in &r.viols {
+            rep.violation(sig.clone(), format!("{d} [hammer family, server runtime {}, route {} mw {}]", hammer::flavour(case.current_thread), ROUTES[case.route], case.mw), hammer::case_json(case));
+        }
+        for i in &r.inconcl {
+            rep.inconclusive(format!("{i} [hammer family, cap {} server runtime {} route {}]", case.cap, hammer::flavour(case.current_thread), ROUTES[case.route]));
+        }
+    }
+    if let Some((case, r)) = hammer_results.iter().find(|(c, _)| c.cap == 4) {
+        rep.sample(json!({"case": hammer::case_json(case), "frames": r.stats.iter().map(|s| s.frames).sum::<u64>(), "gauge_max": r.stats.iter().map(|s| s.gauge_max).max()}));
+    }
+    if hammer_planned > 0 {
+        hammer_groups.sort();
+        rep.set("hammer_groups_planned", json!(hammer_planned));
+        rep.set("hammer_groups_executed", json!(hammer_results.len()));
+        rep.set("hammer_groups_clean", json!(hammer_clean));
+        rep.set("hammer_groups", json!(hammer_groups));
+        rep.set("hammer_phase_wall_ms", json!(hammer_wall.as_millis() as u64));
+        rep.set("hammer_rounds", json!(tot.hammer_rounds));
+        rep.set("hammer_rounds_cut_by_time_budget", json!(tot.hammer_rounds_cut_by_time));
+        rep.set("hammer_requests_sent", json!(tot.hammer_requests));
+        rep.set("hammer_replies_own_return", json!(tot.hammer_replies_return));
+        rep.set("hammer_replies_own_error", json!(tot.hammer_replies_error));
+        rep.set("hammer_replies_own_panic_ec9", json!(tot.hammer_replies_panic));
+        rep.set("hammer_replies_ec8", json!(tot.hammer_replies_ec8));
+        rep.set("hammer_max_requests_in_flight", json!(tot.hammer_max_in_flight));
+        rep.set("hammer_rejections_with_cap_handlers_running_at_the_reader", json!(hammer_hook[0]));
+        rep.set("hammer_rejections_undecided_fewer_than_cap_running_at_the_reader", json!(hammer_hook[1]));
+        rep.set("hammer_idle_points_all_replies_in_gauge_zero", json!(tot.hammer_idle_points));
+        rep.set("probe_rounds_completed", json!(tot.probe_rounds_completed));
+        rep.set("probe_parked_handlers_admitted", json!(tot.probe_admitted));
+        rep.set("probe_rejections_below_cap_retried", json!(tot.probe_rejections_retried));
+        rep.set("probe_rejections_with_cap_handlers_running_at_the_reader", json!(hammer_hook[2]));
+        rep.set("probe_rejections_with_fewer_than_cap_running_at_the_reader", json!(hammer_hook[3]));
+        rep.set("probe_extra_request_rejected", json!(tot.probe_extra_rejected));
+        rep.set("probe_released_handlers_answered", json!(tot.probe_released_replies));
+        if hammer_results.len() < hammer_planned {
+            rep.inconclusive(format!("hammer family: {} of {hammer_planned} groups did not finish inside the watchdog", hammer_planned - hammer_results.len()));
+        }
+        if rep.violations.is_empty() && (tot.hammer_requests == 0 || tot.probe_rounds_completed == 0) {
+            rep.inconclusive("hammer family: too few events (no hammer request sent or no probe completed)");
+        }
+    }
     let executed = results.len();
     rep.set("cases_planned", json!(planned));
     rep.set("cases_executed", json!(executed));
@@ -1895,7 +2106,7 @@ pub fn run(args: &Args) -> Report {
             rep.inconclusive(format!("wall budget hit before the exhaustive part finished ({exhaustive_done}/{planned_exhaustive})"));
         }
     }
-    if args.replay.is_none() && (tot.overcap_requests_rejected == 0 || tot.saturations_reached == 0 || tot.panic_replies == 0) {
+    if args.replay.is_none() && !hammer_only && (tot.overcap_requests_rejected == 0 || tot.saturations_reached == 0 || tot.panic_replies == 0) {
         if rep.violations.is_empty() {
             rep.inconclusive("too few events: no saturation, rejection or panic reply was observed");
         }
